@@ -385,6 +385,9 @@ class FnEmit:
         if m:
             cx.helpers.add(('ovf', m.group(1), m.group(2), int(m.group(3)), cx.cty(ins.ty)))
             return 'ir2c_%s%s_ovf%s(%s)' % (m.group(1), m.group(2), m.group(3), ', '.join(args))
+        m = re.match(r'llvm\.fmuladd\.f(32|64)$', n)
+        if m:
+            return '(%s * %s + %s)' % (args[0], args[1], args[2])
         if n.startswith('llvm.x86.'):
             cx.helpers.add(('x86', n))
             # generic: pass through to hand-written model taking/returning byte blobs
@@ -500,6 +503,14 @@ class FnEmit:
                     break
         return ' '.join(moves + finals + ['goto %s;' % s.blk(to)])
 
+    def yield_point(s):
+        """preemption point before an atomic access (own sequentialisation, see glue: ir2c_yield)"""
+        rx = getattr(s.cx.o, 'yield_in', None)
+        if not rx: return
+        if re.search(rx, s.cx.dem.get(cname(s.f.name), '')):
+            s.cx.nyield += 1
+            s.w('ir2c_yield(%d);' % s.cx.nyield)
+
     def may_throw(s, ins, name):
         m = s.cx.m
         groups = list(ins.attrgroups)
@@ -554,11 +565,13 @@ class FnEmit:
             s.extra_decl.append('  uint64_t %s[%d] __attribute__((aligned(%d))) IR2C_ZI;' % (an, max((sz * n + 7) // 8, 1), max(al, 8)))
             w('%s = (ptr)%s;' % (r, an))
         elif op == 'load':
+            if ins.atomic: s.yield_point()
             ct = cx.cty(ins.ty); e = '(*(%s*)%s)' % (ct, V(ins.p))
             if cx.res(ins.ty).kind == 'int' and cx.res(ins.ty).bits == 1: e = '(%s & 1)' % e
             if ins.atomic and cx.o.threads: w('__CPROVER_atomic_begin(); %s = %s; __CPROVER_atomic_end();' % (r, e))
             else: w('%s = %s;' % (r, e))
         elif op == 'store':
+            if ins.atomic: s.yield_point()
             t = ins.v.ty; ct = cx.cty(t)
             st = '*(%s*)%s = %s;' % (ct, V(ins.p), V(ins.v))
             if ins.atomic and cx.o.threads: w('__CPROVER_atomic_begin(); %s __CPROVER_atomic_end();' % st)
@@ -566,10 +579,12 @@ class FnEmit:
         elif op == 'fence':
             w('ir2c_fence();')
         elif op == 'cmpxchg':
+            s.yield_point()
             ct = cx.cty(ins.cmp.ty)
             b, e = ('__CPROVER_atomic_begin(); ', ' __CPROVER_atomic_end();') if cx.o.threads else ('', '')
             w('%s%s.f0 = *(%s*)%s; %s.f1 = (u1)(%s.f0 == %s); if (%s.f1) *(%s*)%s = %s;%s' % (b, r, ct, V(ins.p), r, r, V(ins.cmp), r, ct, V(ins.p), V(ins.new), e))
         elif op == 'atomicrmw':
+            s.yield_point()
             ct = cx.cty(ins.v.ty); pp = '(*(%s*)%s)' % (ct, V(ins.p)); v = V(ins.v)
             new = {'xchg': v, 'add': s.binop('add', ins.v.ty, r, v), 'sub': s.binop('sub', ins.v.ty, r, v),
                    'and': s.binop('and', ins.v.ty, r, v), 'or': s.binop('or', ins.v.ty, r, v), 'xor': s.binop('xor', ins.v.ty, r, v)}[ins.rmw]
@@ -724,6 +739,15 @@ static u1 ir2c_exc_pending; static ptr ir2c_exc_obj; static uint32_t ir2c_exc_ty
 #else
 #define IR2C_ZI = {0}
 #endif
+/* own sequentialisation with preemption bound 1: the k-th atomic access executed while yields are enabled is the preemption point;
+   the preempting thread runs one complete harness-provided action (verif_interfere) there.  k is chosen by the harness (symbolic). */
+static uint32_t ir2c_yield_enabled, ir2c_in_yield; static uint64_t ir2c_yield_count, ir2c_yield_at, ir2c_yield_site;
+void verif_interfere(void);
+static void ir2c_yield(uint32_t site) {
+  if (!ir2c_yield_enabled || ir2c_in_yield) return;
+  ir2c_yield_count++;
+  if (ir2c_yield_count == ir2c_yield_at) { ir2c_in_yield = 1; ir2c_yield_site = site; verif_interfere(); ir2c_in_yield = 0; }
+}
 static inline void ir2c_fence(void) {}
 #ifdef IR2C_SPIN_CUT
 /* a spinning thread only re-reads; executions in which it spins are equivalent to ones where it arrives later */
@@ -902,7 +926,7 @@ def demangle(names):
 def translate(mod, opts):
     cx = Ctx(mod, opts); cx.called = set()
     dem = demangle([cname(n) for n in mod.funcs])
-    cx.stubbed = []; cx.dem = dem; cx.pruned = 0; cx.hooked = []
+    cx.stubbed = []; cx.dem = dem; cx.pruned = 0; cx.hooked = []; cx.nyield = 0
     bodies = []; protos = []
     for name, f in mod.funcs.items():
         if f.blocks is None or cname(name) in MODELS: continue
@@ -974,7 +998,7 @@ def translate(mod, opts):
     out += gdecl
     out.append(MODELS_C)
     out += protos; out += gdef; out += stubs; out += bodies
-    global CX_STUBBED, CX_PRUNED, CX_HOOKED; CX_STUBBED = cx.stubbed; CX_PRUNED = cx.pruned; CX_HOOKED = cx.hooked
+    global CX_STUBBED, CX_PRUNED, CX_HOOKED, CX_NYIELD; CX_STUBBED = cx.stubbed; CX_PRUNED = cx.pruned; CX_HOOKED = cx.hooked; CX_NYIELD = cx.nyield
     return '\n'.join(out) + '\n'
 
 if __name__ == '__main__':
